@@ -131,6 +131,13 @@ func c13Specs(tier string) []*XSpec {
 			x.Prefix = append(x.Prefix, Op{K: "set", V: "s", Key: k})
 		}
 		x.Name += "-after-" + strings.ReplaceAll(HistString(x.Prefix), " ", "+")
+		// these specs also give every hint item its own index entry (hint_index_interval below one item), so lookups in
+		// dumped hint files go through the index search instead of scanning the tiny file from its start
+		c := *x.Cfg
+		c.IndexIntervalSize = 1
+		c.Name += "-idx1"
+		x.Cfg = &c
+		x.Name = strings.Replace(x.Name, "collide-forced", "collide-forced-idx1", 1)
 		return x
 	}
 	if tier == "quick" {
